@@ -111,6 +111,8 @@ structure RequestFile where
   derives : List Text
   doc : Text
   fields : List (Text × Text)
+  /-- the model types imported with `use crate::model::{..}` -/
+  imports : List Text
   required : Option (Text × List Text × List (Text × Text))   -- name, lifetimes, fields
   setters : List SetterSum
   output : Text
@@ -119,6 +121,19 @@ structure RequestFile where
   program : List ReqStmt
   method : MethodSum
   deriving DecidableEq, Repr
+
+/-- `add_model_import`: first occurrences, in order -/
+def dedupKeep : List Text → List Text → List Text
+  | acc, [] => acc.reverse
+  | acc, x :: xs => if acc.contains x then dedupKeep acc xs else dedupKeep (x :: acc) xs
+
+/-- the models a request module imports: those its inputs mention, then the one inside a non-model result -/
+def requestImports (op : Operation) : Except Panic (List Text) :=
+  let names := op.params.filterMap (fun p => p.ty.innerModel) ++
+    (match op.ret with | .model _ => [] | t => match t.innerModel with | some m => [m] | none => [])
+  match mapE sanitizeStruct names with
+  | .ok ids => .ok (dedupKeep [] ids)
+  | .error e => .error e
 
 def structField (useRef : Bool) (p : Param) : Except Panic (Text × Text) :=
   match sanitize p.name, (if useRef then toReferenceType cs!"'a" p.ty else toRustType p.ty) with
@@ -136,7 +151,7 @@ def makeRequestFile (hasSecurity : Bool) (cfg : Cfg) (op : Operation) : Except P
     let reqX : Except Panic (Option (Text × List Text × List (Text × Text))) :=
       if useStruct then
         match opRequiredStruct op.name, mapE (structField true) (mandatory op.params) with
-        | .ok rn, .ok rf => .ok (some (rn, (if op.params.any (fun p => isReferenceType p.ty) then [cs!"'a"] else []), rf))
+        | .ok rn, .ok rf => .ok (some (rn, (if (mandatory op.params).any (fun p => isReferenceType p.ty) then [cs!"'a"] else []), rf))
         | .error e, _ => .error e
         | _, .error e => .error e
       else .ok none
@@ -149,18 +164,19 @@ def makeRequestFile (hasSecurity : Bool) (cfg : Cfg) (op : Operation) : Except P
                           | .ok i, .ok t => .ok (i, t) | .error e, _ => .error e | _, .error e => .error e) (mandatory op.params)
     let litX : Except Panic (List (Text × Text)) :=
       mapE (fun p => match sanitize p.name with | .ok i => .ok (i, literalExpr p i useStruct) | .error e => .error e) op.params
-    match reqX, argsX, litX with
-    | .ok req, .ok args, .ok lit =>
-      .ok { stem := stem, structName := sname, derives := builtinStructDerives ++ userDerives cfg,
+    match reqX, argsX, litX, requestImports op with
+    | .ok req, .ok args, .ok lit, .ok imps =>
+      .ok { stem := stem, imports := imps, structName := sname, derives := builtinStructDerives ++ userDerives cfg,
             doc := cs!"You should use this struct via [`" ++ clientName ++ cs!"::" ++ mname ++ cs!"`].\n\nOn request success, this will return a [`" ++ resp ++ cs!"`].",
             fields := fields, required := req, setters := sets,
-            output := if op.ret.isPrimitive then resp else cs!"crate::model::" ++ resp,
+            output := (match op.ret with | .model _ => cs!"crate::model::" ++ resp | _ => resp),
             url := url, verb := op.method,
             program := prog ++ (if hasSecurity then [.authenticate] else []),
             method := { name := mname, doc := docText op.doc, args := args, literal := lit } }
-    | .error e, _, _ => .error e
-    | _, .error e, _ => .error e
-    | _, _, .error e => .error e
+    | .error e, _, _, _ => .error e
+    | _, .error e, _, _ => .error e
+    | _, _, .error e, _ => .error e
+    | _, _, _, .error e => .error e
   | .error e, _, _, _, _, _, _, _ => .error e
   | _, .error e, _, _, _, _, _, _ => .error e
   | _, _, .error e, _, _, _, _, _ => .error e
